@@ -188,7 +188,7 @@ func runSchedule(w *hx.Worker, j jobT, maxExecs int64) {
 	sc := scen.Scenarios()[j.sc]
 	e := &explorer{sc: sc, expected: expectedOf(sc), bound: j.bound, onlySync: j.onlySync, w: w, maxExecs: maxExecs, outcomes: map[string]bool{}, shard: j.shard, nshards: j.nshards}
 	if maxExecs > 60000 {
-		e.deadline = time.Now().Add(3 * time.Minute) // thorough tier: scenarios whose executions are long (Build under the scheduler) stop here
+		e.deadline = time.Now().Add(90 * time.Second) // thorough tier: scenarios whose executions are long (Build under the scheduler) stop here
 	}
 	e.explore(nil, 0)
 	mode := fmt.Sprintf("bound=%d", j.bound)
@@ -587,7 +587,7 @@ func subMain(i int, tier string) {
 	js := jobsFor(quick)
 	var maxExecs int64 = 60000
 	if !quick {
-		maxExecs = 200000 // per (scenario, bound, shard); with the 3-minute budget per shard below
+		maxExecs = 200000 // per (scenario, bound, shard); with the 90-second budget per shard below
 	}
 	w := hx.NewReplayWorker()
 	runSchedule(w, js[i], maxExecs)
